@@ -7,7 +7,7 @@ from fractions import Fraction as F
 from fv.gen import geo
 from fv.gen.dies import yaml_num
 
-REGION_NAMES = ["LUT", "DSP", "BRAM", "URAM"]
+REGION_NAMES = ["LUT", "DSP", "BRAM", "URAM", "BRAM_36k", "_io"]
 WEIGHTS = [None, None, 1, 2, 5, 0.5, 2.5, 0.001, 1e6, 1.0, 3.75]
 
 
